@@ -133,6 +133,10 @@ def one_roundtrip(sio, spec, opts):
         rec["gut"] = None
         rec["gut_err"] = exc_name(e)
         gut = []
+    if opts.get("vis"):
+        # C13, first clause: every archive dumps wrote is visualized to the end in all nine (show x trusted) combinations
+        # (before load: a refused or failing load must not hide a visualize failure)
+        rec["vis"] = visualize_all(sio, data, gut)
     try:
         obj2 = sio.loads(data, trusted=gut)
     except BaseException as e:  # noqa
@@ -161,19 +165,21 @@ def one_roundtrip(sio, spec, opts):
         stable = "raises:" + exc_name(e)
     rec["stable"] = stable
     # RNGs continue the identical stream
-    if opts.get("vis"):
-        vis = {}
-        for show in ("all", "untrusted", "trusted"):
-            for tname, T in (("none", None), ("full", gut), ("half", gut[: len(gut) // 2])):
-                buf = io.StringIO()
-                try:
-                    with contextlib.redirect_stdout(buf):
-                        sio.visualize(data, show=show, trusted=T)
-                    vis[f"{show}/{tname}"] = "ok"
-                except Exception as e:
-                    vis[f"{show}/{tname}"] = "raises:" + exc_name(e) + ":" + str(e)[:60]
-        rec["vis"] = vis
     return rec
+
+
+def visualize_all(sio, data, gut):
+    vis = {}
+    for show in ("all", "untrusted", "trusted"):
+        for tname, T in (("none", None), ("full", gut), ("half", gut[: len(gut) // 2])):
+            buf = io.StringIO()
+            try:
+                with contextlib.redirect_stdout(buf):
+                    sio.visualize(data, show=show, trusted=T)
+                vis[f"{show}/{tname}"] = "ok"
+            except Exception as e:
+                vis[f"{show}/{tname}"] = "raises:" + exc_name(e) + ":" + str(e)[:60]
+    return vis
 
 
 def mode_roundtrip(cases):
